@@ -199,6 +199,9 @@ fn(CM + ':consume_number', props=PC, params={'stream': 'Scanner'}, returns='bool
    requires=['wf(stream)', 'stream.pos <= stream.end'],
    ensures=['result == (stream.pos != old(stream.pos))', 'old(stream.pos) <= stream.pos', 'stream.pos <= stream.end',
             'implies(result, numshape(stream.string, old(stream.pos), stream.pos))'],
+   # witnesses for the existential in numshape: end of the sign, end of the integer part
+   lemmas=['implies(stream.pos != start, numshape(stream.string, start, stream.pos, after_negative, '
+           '                                      prev_pos if prev_pos <= stream.pos else stream.pos))'],
    modifies=['stream.pos'])
 
 fn(CM + ':number_value', props=PC, params={'scanner': 'Scanner'}, returns='NumberValue|None',
